@@ -116,13 +116,13 @@ def verus_version():
 _VV = None
 
 
-def run_verus(path, rlimit=60, multiple_errors=40, use_cache=True):
+def run_verus(path, rlimit=60, multiple_errors=40, use_cache=True, seed=None):
     """returns dict(results=..., diagnostics=[...], times=..., wall_s=..., cmd=..., cached=bool)"""
     global _VV
     if _VV is None:
         _VV = verus_version()
     cmd = ["verus", "--no-lifetime", "--output-json", "--time", "--error-format=json", "--multiple-errors", str(multiple_errors),
-           "--rlimit", str(rlimit), path]
+           "--rlimit", str(rlimit)] + (["--smt-option", "smt.random_seed=%d" % seed, "--smt-option", "sat.random_seed=%d" % seed] if seed else []) + [path]
     text = open(path).read()
     key = hashlib.sha256((_VV + "\0" + " ".join(cmd[1:-1]) + "\0" + text).encode()).hexdigest()
     cdir = os.path.join(BUILD, "cache")
